@@ -10,5 +10,7 @@ pub trait NumCast: Sized + ToPrimitive {
         ensures r == Self::cast_spec(n);
 }
 pub trait BaseFloat: NumCast {}
+// num_traits::cast(n) is NumCast::from(n)
+#[verifier::external_body] pub fn cast<T: NumCast, U: NumCast>(n: T) -> (r: Option<U>) ensures r == U::cast_spec(n) { unimplemented!() }
 #[verifier::external_body] pub fn vpanic() -> ! requires false { loop {} }
 } // verus!
